@@ -111,7 +111,13 @@ func (sp *SAMLServiceProvider) getDecryptCert() (*tls.Certificate, error) {
 	//This is the tls.Certificate we'll use to decrypt any encrypted assertions
 	var decryptCert tls.Certificate
 
-	switch crt := sp.SPKeyStore.(type) {
+	fieldStore := sp.SPKeyStore
+	if sp.spKeyStoreOverride != nil {
+		// A key set via SetSPKeyStore takes precedence (see below): the deprecated field is not consulted.
+		fieldStore = nil
+	}
+
+	switch crt := fieldStore.(type) {
 	case nil:
 		// Only reachable when the key was set via SetSPKeyStore (handled below).
 	case dsig.TLSCertKeyStore:
@@ -121,7 +127,7 @@ func (sp *SAMLServiceProvider) getDecryptCert() (*tls.Certificate, error) {
 	default:
 
 		//Otherwise, construct one from the results of GetKeyPair
-		pk, cert, err := sp.SPKeyStore.GetKeyPair()
+		pk, cert, err := fieldStore.GetKeyPair()
 		if err != nil {
 			return nil, fmt.Errorf("error getting keypair: %v", err)
 		}
